@@ -330,7 +330,7 @@ std::string propSingle(const FmmCase& c, const std::string& prop){
             auto it = perLeaf.find(T);
             if(it == perLeaf.end()){
                 gf::Val v = gf::zero();
-                if(farDone && H > lstop) gf::addPlain(v, ex.local(H - 1, T, lstop));
+                if(farDone && H > lstop) gf::addPlain(v, ex.farAtLeaf(T, lstop));
                 if(nearDone) gf::addPlain(v, ex.nearField(T, -1));
                 it = perLeaf.emplace(T, v).first;
             }
@@ -343,7 +343,7 @@ std::string propSingle(const FmmCase& c, const std::string& prop){
             const Coord T = b.mt.leaves.begin()->first; const long id = b.mt.leaves.begin()->second.front();
             gf::Val direct = ex.allSources(T, Coord{{0,0,0,0}}, id);
             gf::Val viaLists = gf::zero();
-            if(H > lstop) gf::addPlain(viaLists, ex.local(H - 1, T, lstop));
+            if(H > lstop) gf::addPlain(viaLists, ex.farAtLeaf(T, lstop));
             gf::addPlain(viaLists, ex.nearField(T, id));
             if(direct != viaLists) return "MODEL-ERROR partition identity violated by the reference model";
         }
@@ -456,6 +456,7 @@ pbt::GenCfg cfgFor(const std::string& prop, const hc::Args& a){
         g.minH = hdeep[Dim] / 2; g.maxH = hdeep[Dim]; g.maxN = 40; g.lstops = false;
     }
     if(prop == "C01" || prop == "C02") g.lstops = (a.getInt("lstops", 1) != 0);
+    if(prop == "C15" || prop == "C06" || prop == "C07" || prop == "C16" || prop == "C17" || prop == "C01") g.emptySets = true;
     return g;
 }
 
